@@ -27,7 +27,8 @@ open Backend.PB
 theorem C05_pop_order (s0 : BSt) (h0 : Start s0) (hg : s0.cfg.grace ≠ 0) (hr : s0.cfg.refreshAfterSample = true)
     (ops : List Op) (hp : GracePremise (runOps s0 ops)) :
     ((runOps s0 ops).popLog.reverse.map (·.ts)).Pairwise (· ≤ ·) := by
-  have h := ((start_GI h0 hg hr).runOps ops).popSorted hp
+  have hc := (start_GI h0).cfg_runOps ops
+  have h := ((start_GI h0).runOps ops).popSorted (by rw [hc]; exact hg) (by rw [hc]; exact hr) hp
   rw [List.pairwise_map, List.pairwise_reverse]
   exact h
 
@@ -45,9 +46,11 @@ theorem C05_statement_order (s0 : BSt) (h0 : Start s0) (hg : s0.cfg.grace ≠ 0)
 
 /-- The same from any state that satisfies the ordering invariant (e.g. any reachable state): the order is
     maintained by every continuation of the schedule. -/
-theorem C05_order_continues (s : BSt) (h : GI s) (ops : List Op) (hp : GracePremise (runOps s ops)) :
+theorem C05_order_continues (s : BSt) (h : GI s) (hg : s.cfg.grace ≠ 0) (hr : s.cfg.refreshAfterSample = true)
+    (ops : List Op) (hp : GracePremise (runOps s ops)) :
     ((runOps s ops).popLog.reverse.map (·.ts)).Pairwise (· ≤ ·) := by
-  have h := (h.runOps ops).popSorted hp
+  have hc := h.cfg_runOps ops
+  have h := (h.runOps ops).popSorted (by rw [hc]; exact hg) (by rw [hc]; exact hr) hp
   rw [List.pairwise_map, List.pairwise_reverse]
   exact h
 
